@@ -100,9 +100,11 @@ pub fn check(v: &View, vd: &mut Verdict) {
                 }
             }
         }
-        if let Some((s, _)) = av.task_end {
-            if s < v.alive_until(a) {
-                vd.fail("C17/ended_while_owned", format!("actor {a}: ended at {s} although strong handles existed and nothing had asked it to stop (first cause at {})", v.alive_until(a)));
+        // it started to wind down (stopped() entered, or the task ended) before anything could have caused that
+        let wind_down = v.cbs.iter().filter(|c| c.actor == a && c.cb == Cb::Stopped).map(|c| c.enter).min().or(av.task_end.map(|(s, _)| s));
+        if let Some(s) = wind_down {
+            if s < v.alive_until(a) && av.task_end.is_some_and(|(e, _)| e >= v.alive_until(a) || s < e) && v.cbs.iter().filter(|c| c.actor == a && c.cb == Cb::Started).count() == 1 {
+                vd.fail("C17/ended_while_owned", format!("actor {a}: began to stop at {s} although strong handles existed and nothing had asked it to stop (first possible cause at {})", v.alive_until(a)));
             }
         }
     }
